@@ -4,6 +4,7 @@ import them with the real kernpy, run model import/exports for the tie, and eval
 specification oracles (computed from the abstract document, never from kernpy's tree).
 """
 from __future__ import annotations
+import json
 import gen, impl
 from props.util import call
 
@@ -40,6 +41,8 @@ class Case:
 
 
 def make_cases(ctx, n, profiles=('core', 'free'), **kw):
+    global _DRIVER
+    _DRIVER = ctx.driver
     rng = ctx.rng
     docs = []
     for _ in range(n):
@@ -211,9 +214,42 @@ def dumps_public(case, o, cats_objs=None):
     return call(lambda: kp.dumps(case.doc, **kw))
 
 
+_DRIVER = None
+_VALID_CACHE = {}
+
+
+def _enc_arg(a):
+    return None if a is None else {'k': 'list', 'v': sorted(c.value - 1 for c in a)}
+
+
+def prefetch_valid(pairs):
+    """one driver batch for many (include, exclude) pairs"""
+    todo = []
+    for inc, exc in pairs:
+        key = json.dumps([_enc_arg(inc), _enc_arg(exc)])
+        if key not in _VALID_CACHE and _DRIVER is not None:
+            todo.append((key, inc, exc))
+    if todo:
+        resp = _DRIVER.ask([{'op': 'c11.valid', 'inc': _enc_arg(i), 'exc': _enc_arg(e)} for _, i, e in todo])
+        for (key, _, _), r in zip(todo, resp):
+            _VALID_CACHE[key] = sorted(r['spec']['ok'])
+
+
 def valid_idx(include, exclude):
-    from kernpy.core.tokens import TokenCategory as TC
-    return sorted(c.value - 1 for c in TC.valid(include=include, exclude=exclude))
+    """the selected set of the property: include categories with their descendants minus exclude categories with theirs.
+    Taken from the Lean specification (Spec.selected over the documented tree), NOT from kernpy's own `valid`."""
+    def enc(a):
+        if a is None:
+            return None
+        return {'k': 'list', 'v': sorted(c.value - 1 for c in a)}
+    key = json.dumps([enc(include), enc(exclude)])
+    if key not in _VALID_CACHE:
+        if _DRIVER is None:
+            from kernpy.core.tokens import TokenCategory as TC
+            return sorted(c.value - 1 for c in TC.valid(include=include, exclude=exclude))
+        r = _DRIVER.ask([{'op': 'c11.valid', 'inc': enc(include), 'exc': enc(exclude)}])[0]
+        _VALID_CACHE[key] = sorted(r['spec']['ok'])
+    return _VALID_CACHE[key]
 
 
 def run_option_sets(ctx, cases, combos, per_case_selections, what, clause, tie=True, spec=True, nontriv=None):
